@@ -44,9 +44,60 @@ Theorem offer_once v br s p q e1 e2 c1 c2 :
   e_cl e1 = Some c1 -> e_cl e2 = Some c2 -> c_id c1 = c_id c2 -> p = q.
 Proof. intros R. apply (inv_cids v s (reachable_inv v br s R)). Qed.
 
-(* the relay URL of a match: configured for the fingerprint of the client whose offer this is, in a list that was
-   installed; and it is the URL of the list the client was checked against ([c_url]) unless a list was installed
-   after the client's request *)
+(* the current list is the newest installed one *)
+Theorem current_list_is_newest v br s : reachable v br s -> nth_error (br_hist s) 0 = Some (bridges s).
+Proof. intros R. apply (inv_hist v s (reachable_inv v br s R)). Qed.
+
+(* the relay URL of a match: configured for the fingerprint of the client whose offer this is, in a list installed
+   NOT BEFORE the list current at the client's request. [br_hist] is newest first and grows by one per installation,
+   [c_epoch c] is its length at the request: the list current at the request sits at position
+   [length (br_hist s) - c_epoch c] (it configures [c_url c]); the list the URL was taken from sits at a position
+   i <= that one. With no installation in between (c_epoch c = length) both are the head: m_url = c_url. *)
+Theorem match_response_since_request v br s p e m :
+  reachable v br s -> nth_error (entries s) p = Some e -> e_w e = W_Done (PMatch m) ->
+  exists c, e_cl e = Some c /\ m_offer m = c_offer c /\ m_nat m = c_nat c /\
+    (c_epoch c <= length (br_hist s))%nat /\
+    (exists b0, nth_error (br_hist s) (length (br_hist s) - c_epoch c) = Some b0 /\ lookup (c_fp c) b0 = Some (c_url c)) /\
+    (exists i b, (i <= length (br_hist s) - c_epoch c)%nat /\ nth_error (br_hist s) i = Some b /\
+                 lookup (c_fp c) b = Some (m_url m)) /\
+    (c_epoch c = length (br_hist s) -> m_url m = c_url c).
+Proof.
+  intros R Hp Hw. pose proof (reachable_inv v br s R) as I.
+  destruct (inv_entries v s I p e Hp) as [_ [[_ [Hm _]] [Hcl _]]].
+  destruct (Hm m Hw) as [c [Hc [Ho [Hn [[i [b [Hi [Hb Hl]]]] Hu]]]]]. exists c.
+  destruct (Hcl c Hc) as [_ [_ [Hle [Hb0 _]]]].
+  split; [exact Hc|]. split; [exact Ho|]. split; [exact Hn|]. split; [exact Hle|]. split; [exact Hb0|]. split.
+  - exists i, b. split; [unfold blist in *; lia|]. split; assumption.
+  - intros He. destruct Hu as [Hu|Hu]; [exact Hu | unfold blist in *; lia].
+Qed.
+
+(* what the positions mean, without reference to the ghost fields of the client record: in any state s' reached from a
+   (reachable) state s, the history is the lists installed since s, newest first, followed by the history of s; so
+   position [length (br_hist s') - length (br_hist s)] holds the list current in s, and the positions up to it are
+   exactly that list and the lists installed after s. With s the state of a client's request (C02_client_checked:
+   c_epoch c = length (br_hist s)) this is what the positions of match_response_since_request stand for. *)
+Lemma run_hist_suffix v : forall ls s s', run v s ls = Some s' -> exists newer, br_hist s' = newer ++ br_hist s.
+Proof.
+  induction ls as [|l ls IH]; intros s s' H; cbn [run] in H.
+  - injection H as <-. exists []. reflexivity.
+  - destruct (step v s l) as [s1|] eqn:Hs; [|discriminate].
+    destruct (IH s1 s' H) as [newer Hn]. destruct (step_hist v s l s1 Hs) as [_ Hh].
+    destruct l as [? ? ? ?|?|?|?|? ? ? ?|?|?|?|?|?|? ?|?|?|?|b]; try (exists newer; rewrite Hn, Hh; reflexivity).
+    exists (newer ++ [b]). rewrite Hn, Hh, <- app_assoc. reflexivity.
+Qed.
+
+Theorem lists_since v br s ls s' : reachable v br s -> run v s ls = Some s' ->
+  exists newer, br_hist s' = newer ++ br_hist s /\
+    length newer = (length (br_hist s') - length (br_hist s))%nat /\
+    nth_error (br_hist s') (length newer) = Some (bridges s).
+Proof.
+  intros R H. destruct (run_hist_suffix v ls s s' H) as [newer Hn]. exists newer.
+  split; [exact Hn|]. split.
+  - rewrite Hn, app_length. lia.
+  - rewrite Hn, nth_error_app2 by lia. rewrite Nat.sub_diag. apply (current_list_is_newest v br s R).
+Qed.
+
+(* the weaker form kept for its name: some installed list configures the URL *)
 Theorem match_response v br s p e m :
   reachable v br s -> nth_error (entries s) p = Some e -> e_w e = W_Done (PMatch m) ->
   exists c, e_cl e = Some c /\ m_offer m = c_offer c /\ m_nat m = c_nat c /\
@@ -54,10 +105,12 @@ Theorem match_response v br s p e m :
     (exists b, In b (br_hist s) /\ lookup (c_fp c) b = Some (c_url c)) /\
     (m_url m = c_url c \/ (c_epoch c < length (br_hist s))%nat).
 Proof.
-  intros R Hp Hw. pose proof (reachable_inv v br s R) as I.
-  destruct (inv_entries v s I p e Hp) as [_ [[_ [Hm _]] [Hcl _]]].
-  destruct (Hm m Hw) as [c [Hc [Ho [Hn [Hb Hu]]]]]. exists c.
-  destruct (Hcl c Hc) as [_ [_ [_ [Hb' _]]]]. repeat split; assumption.
+  intros R Hp Hw.
+  destruct (match_response_since_request v br s p e m R Hp Hw) as [c [Hc [Ho [Hn [Hle [[b0 [Hb0 Hl0]] [[i [b [_ [Hb Hl]]]] Heq]]]]]]].
+  exists c. split; [exact Hc|]. split; [exact Ho|]. split; [exact Hn|]. split; [|split].
+  - exists b. split; [eapply nth_error_In; exact Hb | exact Hl].
+  - exists b0. split; [eapply nth_error_In; exact Hb0 | exact Hl0].
+  - destruct (Nat.eq_dec (c_epoch c) (length (br_hist s))) as [E|E]; [left; exact (Heq E) | right; lia].
 Qed.
 
 (* when the list is never re-installed (the broker binary installs it once, before serving) this is the list *)
